@@ -8,8 +8,8 @@ import z3
 
 from .sx_base import GenError, PathEnd, RaiseSig
 from .theory import Int
-from .values import (F, FAll, FAnd, FEx, FImp, FOr, FT, Sym, VExc, VFunc, VList, VModule, VObj, VOpt,
-                     VSet, VUnique)
+from .values import (F, FAll, FAnd, FEx, FImp, FOr, FT, Sym, VChoice, VExc, VFunc, VList, VModule, VObj,
+                     VOpt, VSet, VUnique)
 
 CONST_TYPES = (int, str, bool, type(None), float, enum.Enum)
 
@@ -302,6 +302,11 @@ class ExprMixin:
         """Python == / is  (for the value kinds modelled they coincide)."""
         if isinstance(a, F) or isinstance(b, F):
             raise GenError("== on formulas")
+        if isinstance(a, VChoice) or isinstance(b, VChoice):
+            c, o = (a, b) if isinstance(a, VChoice) else (b, a)
+            x = self.b(self.truth(self.eq(c.a, o)))
+            y = self.b(self.truth(self.eq(c.b, o)))
+            return self.wrap(z3.If(c.cond, x, y), "bool")
         if is_const(a) and is_const(b):
             if isinstance(a, bool) != isinstance(b, bool) and not (isinstance(a, int) and isinstance(b, int)):
                 return False
@@ -547,7 +552,8 @@ class ExprMixin:
             else:
                 arr = z3.Lambda([k], z3.Select(l.arr, k + a)) if not z3.is_int_value(a) or a.as_long() != 0 else l.arr
             ln = length.as_long() if z3.is_int_value(length) else length
-            return VList(ln, arr, l.elem, l.cls)
+            cls = "%s[%s:%s]" % (l.cls, lo, hi) if l.cls else None
+            return VList(ln, arr, l.elem, cls)
         if self.kind_of(base) == "str":
             return self.str_slice(base, lo, hi)
         raise GenError("slice of %r" % (base,))
